@@ -53,7 +53,8 @@ func runDescribe(e *Env) {
 		sc.StickyPermille = sticky
 		sc.LatePermille = tlate
 		sc.LateMax = timeout / 4
-		sc.MaxSteps = 80000
+		sc.MaxSteps = 20000
+		sc.SpinLimit = 400 // the busy-poll on a closed Inbound is cut short: the clock moves on after 400 idle iterations
 	})
 	for _, a := range []string{gwIP, clientIP, peerIP, "10.0.1.1"} {
 		for _, b := range []string{gwIP, clientIP, groupIP} {
@@ -227,7 +228,13 @@ func runDescribe(e *Env) {
 		}
 		switch rec.Kind {
 		case "arrive": // what the socket received (whether or not the receiver got round to reading it)
-			reads = append(reads, rd{Stamp{rec.T, rec.Seq}, rec.Data})
+			if !killRx {
+				reads = append(reads, rd{Stamp{rec.T, rec.Seq}, rec.Data})
+			}
+		case "read": // when the socket is made to fail, only what was read before it failed counts
+			if killRx {
+				reads = append(reads, rd{Stamp{rec.T, rec.Seq}, rec.Data})
+			}
 		case "send":
 			libReqs = append(libReqs, parseFrame(rec.Data))
 		}
